@@ -1306,3 +1306,32 @@ func KeyFamily(thorough bool) []KeyParams {
 	}
 	return out
 }
+
+
+// NestFamily is the part of the key family used by the dataflow checks:
+// two-level nests with plain keys.
+func NestFamily(thorough bool) []KeyParams {
+	type src struct {
+		kind string
+		sel  int
+	}
+	outers := []src{{"arr", 2}, {"map", 0}}
+	inners := []src{{"arr", 2}, {"map", 0}, {"arr", 3}}
+	if thorough {
+		outers = append(outers, src{"arr", 0}, src{"arr", 1}, src{"arr", 11})
+		inners = append(inners, src{"arr", 0}, src{"arr", 1}, src{"arr", 10})
+	}
+	var out []KeyParams
+	for _, o := range outers {
+		for _, in := range inners {
+			for _, od := range []bool{false, true} {
+				for _, id := range []bool{false, true} {
+					for _, ch := range []int{0, 2} {
+						out = append(out, KeyParams{Outer: o.kind, OuterDyn: od, OuterSel: o.sel, Inner: in.kind, InnerDyn: id, InnerSel: in.sel, Chunks: ch})
+					}
+				}
+			}
+		}
+	}
+	return out
+}
